@@ -285,7 +285,7 @@ PROPS = {
     },
     "C17": {
         "v_units": ["decoders.py", "compress.py"],
-        "r": [("kzg", lambda n: "from_raw_var_bytes" in n), ("verifier", lambda n: n == "verifier.new")],
+        "r": [("kzg", lambda n: "from_raw_var_bytes" in n), ("verifier", lambda n: n == "verifier.new"), ("compress", None)],
         "claim": "totality of the length-field / section parsing for ALL byte strings of ANY length (no bound): Verifier::try_from_bytes and "
                  "Prover::try_from_bytes never index out of bounds and never overflow (48-byte header, checked sums, required_len guard before "
                  "every slice); PackedCircuitReader::{take, unpack_array_len} and packed_size_limit likewise; "
@@ -378,6 +378,7 @@ PROPS = {
     },
     "C15": {
         "v_units": ["capacity.py", "compress.py"],
+        "r": [("compress", None)],
         "claim": "(a) the two routes accept exactly the same capacities: Compiler::max_constraints(pp) == pow2_floor(max_degree - 6) - 6 "
                  "(saturating), compile_with_composer computes n = npot(c + 6) and fails whenever trim(n) fails, PublicParameters::trim(n) "
                  "succeeds iff n + 6 <= max_degree, and LEMMA max_constraints_exact: for all c >= 1 and all capacities, "
